@@ -15,7 +15,7 @@ def first_rule(text):
 
 
 def classify(ev):
-    what = "panic" if ev["panic"] else "neither-model-nor-error" if (ev["ok"] and ev["modelnil"]) else "blank-input-accepted" if (ev["blank"] and ev["ok"]) else "time-budget-exceeded"
+    what = "panic" if ev["panic"] else "neither-model-nor-error" if (ev["ok"] and ev["modelnil"]) else "blank-input-accepted" if (ev["blank"] and ev["ok"]) else "unrepresentable-number-accepted" if (ev.get("unrepresentable") and ev["ok"]) else "time-budget-exceeded"
     return "%s/%s/%s" % (what, first_rule(ev["input"]), ev["context"])
 
 
@@ -24,7 +24,8 @@ def run(ctx):
     ctx.level = "exploration"
     ctx.assumptions += ["TLC 1.8.0 + CommunityModules (the spec is a per-call monitor here: a TLA+ model adds little to a totality property)",
                         "inputs: the repository's corpora, statements of every top-level grammar form, literal extremes, invalid UTF-8, nesting up to 80 (thorough 400), "
-                        "unbalanced delimiters, and seeded token-level mutations of the corpus", "time budget 10 s per call (the unchanged tree needs < 0.25 s for the largest input), best of three"]
+                        "unbalanced delimiters, seeded token-level mutations of the corpus, 31 expression kinds in 19 expression positions with every token-boundary prefix and stray delimiters "
+                        "(the trees ANTLR's error recovery produces), and numbers no Go type can hold in 18 number positions (these must be rejected: a model without them has a hole)", "time budget 10 s per call (the unchanged tree needs < 0.25 s for the largest input), best of three"]
     trace = os.path.join(ctx.work, "fuzz.ndjson")
     args = ["front", "fuzz", "--out", trace, "--seed", str(ctx.seed), "--per-text", "3" if quick else "40"] + ([] if quick else ["--deep"])
     ctx.vh(args, timeout=3000)
@@ -40,7 +41,7 @@ def run(ctx):
     ctx.cov["distinct_nontrivial"] = len(seen_inputs)
     ctx.cov["samples"] += [json.loads(x) for x in open(trace).read().splitlines()[100:103]]
     ctx.cov["rule"] = ("each input is parsed under the unfiltered and the default context; distinct_nontrivial = distinct input texts (first 160 bytes); a record violates "
-                       "the monitor when the call panicked, returned neither a model nor an error, accepted a blank input, or exceeded the time budget three times")
+                       "the monitor when the call panicked, returned neither a model nor an error, accepted a blank input or an unrepresentable number, or exceeded the time budget three times")
     seen = set()
     for hid, ev, events, pos in rejected:
         key = classify(ev)
